@@ -7,6 +7,7 @@ import threading
 import core
 
 _lock = threading.Lock()
+_lock2 = threading.Lock()
 SRCS = ["SUNalg.cpp", "SQuIDS.cpp", "const.cpp", "MatrixExp.cpp"]
 FLAGS = ["-std=c++11", "-g", "-O1", "-fno-omit-frame-pointer", "-fsanitize=address,undefined",
          "-fno-sanitize-recover=undefined", "-Wno-abi", "-w"]
@@ -48,7 +49,18 @@ def _tree_key():
     return h.hexdigest()
 
 
+_progs = {}
+
+
 def build_prog(name, extra_defs=()):
+    k = (name, tuple(extra_defs))
+    with _lock2:
+        if k not in _progs:
+            _progs[k] = _build_prog(name, extra_defs)
+        return _progs[k]
+
+
+def _build_prog(name, extra_defs=()):
     objs = build_lib(extra_defs)
     d = os.path.join(core.VERIF, ".build", "native")
     exe = os.path.join(d, name + "".join("_" + x for x in extra_defs))
